@@ -1012,7 +1012,7 @@ class Gen:
             if n in done: return
             if n in visiting: raise TErr("dependency cycle at %s" % (n,))
             visiting.add(n)
-            for d in deps[n]:
+            for d in sorted(deps[n], key=lambda x: str(x)):      # deterministic output (set order varies between runs)
                 if d in deps: visit(d)
             visiting.discard(n); done.add(n); out.append(n)
         for n in nodes: visit(n)
@@ -1502,7 +1502,12 @@ class Gen:
             declared = [fn for fn, _ in var[1]["fields"]]
             given = {fn: fe for fn, fe in e["fields"]}
             if sorted(declared) != sorted(given): raise TErr("variant literal %s does not list exactly the declared fields" % segs)
-            return self.seq([given[fn] for fn in declared], env, ctx, lambda vs, env2: k("(%s %s)" % (var[0], " ".join(vs)), env2))
+            # field expressions are evaluated in SOURCE order (Rust's rule), the values are then placed in declaration order
+            src_order = [fn for fn, _ in e["fields"]]
+            def kv(vs, env2):
+                val = dict(zip(src_order, vs))
+                return k("(%s %s)" % (var[0], " ".join(val[fn] for fn in declared)), env2)
+            return self.seq([fe for _, fe in e["fields"]], env, ctx, kv)
         if name not in self.structs: raise TErr("struct literal of unknown type %s" % name)
         s = self.structs[name]
         lname = self.rename[name] + (" _" * len(s["generics"]))
